@@ -670,6 +670,11 @@ def build(tier, seed):
     obs.append(Ob("canary.history.max", ob_history_max, (True,), "P", expect=REFUTED))
     functions = {q: extract.get(MP, f"PhaseField.{q}").describe() for q in ("_Eigen_values_vectors_projectors", "Calc_C", "Get_r_e_pg", "Get_f_e_pg")}
     functions["__Calc_psiPlus_e_pg"] = extract.get(SPF, "PhaseField.__Calc_psiPlus_e_pg").describe()
+    from . import C15
+    for variant in (None, "HistoryDamage", "BoundConstrain"):
+        obs.append(Ob(f"C17.restore.replay.{variant or 'History'}", C15.ob_roundtrip, ("PhaseField", "memory", False, variant), "X", (f"{SPF}::PhaseField.Set_Iter", f"{SPF}::PhaseField.Solve"),
+                      bound="3 solved and saved load steps on a 9-node patch, restart from iteration 0", timeout=300,
+                      clause="restarting from a stored iteration and applying the next load again gives the stored next iteration (damage and displacement): no damage system of a later state is reused"))
     obs += ops.phasefield_obligations('C17', tier)
     obs.append(ops.selfcheck_ob('C17'))
     return dict(
